@@ -124,8 +124,8 @@ SRC_RAW = {
     "C11": ["SrcAct"],
     "C12": ["SrcAct"],
     "C15": ["SrcGen"],
-    "C17": ["SrcLoad", "SrcLoadTop"],
-    "C18": ["SrcLoad"],
+    "C17": ["SrcLoad", "SrcLoadTop", "SrcLoadKeys"],
+    "C18": ["SrcLoad", "SrcLoadKeys"],
     "C20": ["SrcBound"],
 }
 for _pid, _mods in SRC_RAW.items():
